@@ -11,6 +11,10 @@ use std::sync::atomic::{AtomicBool, Ordering};
 /// Skip the serde ops of every history (used to compare event digests with a build of
 /// substrate-fixed that has no serde feature).
 pub static CODEC_ONLY: AtomicBool = AtomicBool::new(false);
+/// Lean mode for the interpreter (Miri) probe: only the codec calls and their oracles
+/// (E1, E3, D1-D6); the byte-view algebra, metadata and size checks are skipped because an
+/// interpreter executes them thousands of times slower and they contain no `unsafe` path.
+pub static LEAN: AtomicBool = AtomicBool::new(false);
 
 #[derive(Clone, Debug)]
 pub struct Violation {
@@ -227,6 +231,12 @@ pub fn write_phase(table: &[Ops], t: &Trace, record: bool) -> Result<Written, Vi
                 }
             }
             _ => return Err(viol("E3", i, &f0, "integer twin failed to encode (harness reference broke)".into())),
+        }
+        if LEAN.load(Ordering::Relaxed) {
+            log.ev(ev::CHECK_OK, check_no("E1"), i as u64);
+            log.ev(ev::CHECK_OK, check_no("E3"), i as u64);
+            spans.push((start, end));
+            continue;
         }
         // E2: lengths
         if let Some(v0) = r.vals.first() {
